@@ -163,6 +163,7 @@ func main() {
 	} {
 		directed = append(directed, append(append([]op(nil), hier...), tail...))
 	}
+	directed = append(directed, membershipDirected()...)
 	for _, ops := range directed {
 		runCase(c, ops, full)
 	}
@@ -185,6 +186,13 @@ func main() {
 	for n := 1; n <= rl-1; n++ {
 		exh += enumerate(c, ra, n, runCfg{c23: true, quiet: true}, ra[0], ra[2], ra[3], ra[4], ra[5], ra[6])
 	}
+	ml := 3
+	if c.Thorough() {
+		ml = 5
+	}
+	for n := 1; n <= ml; n++ {
+		exh += enumerateOps(c, membershipPrefix(), membershipAlphabet(), n, runCfg{c23: true, quiet: true})
+	}
 	c.Extra["exhaustive_sequences"] = exh
 	c.Extra["node_alphabet"] = len(na)
 	c.Extra["node_max_len"] = nl
@@ -201,6 +209,9 @@ func main() {
 	}
 	for n := 0; n < nCases; n++ {
 		g := &gen{r: r, weights: c23Kinds}
+		if r.Chance(35) { // membership heavy
+			g.weights = membershipKinds
+		}
 		ln := r.Range(3, 30)
 		ops := make([]op, ln)
 		for i := range ops {
